@@ -395,6 +395,7 @@ func runC09(c *Ctx, tier string) {
 	runDictNulls(c, "C09-N1")
 	runVamEncodingCoverage(c, "C09-X2")
 	runVectorizeDeclinesFilter(c, "C09-G3")
+	runSingleFieldShape(c, "C09-G4")
 }
 
 func init() {
